@@ -46,8 +46,17 @@ func loFindFile(L *LState, name, pname string) (string, string) {
 	return "", strings.Join(messages, "\n\t")
 }
 
+// loPackageTable returns the package table that OpenPackage created (nil when the package
+// library is not open). It is kept in the registry, so neither the global variable "package" nor
+// package.loaded.package is needed to find it.
+func loPackageTable(L *LState) *LTable {
+	tb, _ := L.GetField(L.Get(RegistryIndex), "_PACKAGE").(*LTable)
+	return tb
+}
+
 func OpenPackage(L *LState) int {
 	packagemod := L.RegisterModule(LoadLibName, loFuncs)
+	L.SetField(L.Get(RegistryIndex), "_PACKAGE", packagemod)
 
 	L.SetField(packagemod, "preload", L.NewTable())
 
